@@ -92,6 +92,9 @@ func c05(r *Report) propMeta {
 	r.Rule("C05.R9", "E20 event agreement: what the cylinder DE / signing workers read is emitted")
 	r.EventAgreement("events", 2, "cylinder/workers/de", "cylinder/workers/signing")
 
+	r.Rule("C05.R11", "daemon side: a generated nonce pair is registered exactly once")
+	r.NoResliceAfterHandOff("handed-off-batches-not-rewritten", []string{"cylinder/workers/", "cylinder/client."}, 20)
+
 	r.Rule("C05.lint", "E8 module lint: no nondeterminism / process-local state in x/tss")
 	r.ModuleLint("module-lint", "tss", 20)
 
@@ -105,6 +108,7 @@ func c05(r *Report) propMeta {
 			"R6 every KV-store Get/Has/Delete of x/tss uses a key builder of x/tss/types that some Set of the module also uses (a probe of an iteration prefix or of a sibling family is always-empty state)",
 			"R7 both points of every submitted DE reach tss.Point.Validate from MsgSubmitDEs.ValidateBasic",
 			"R8 tss InitGenesis rebuilds each member's queue from GenesisState.DEs in list order: no unstable sort (or any other lint hit) in the import path (seed C05-6 sorted the flat list with sort.Slice, which permutes one member's pairs for lists longer than 12)",
+			"R11 in the cylinder workers no slice that was handed off (queued on the message channel, passed to a call, stored in a field) is afterwards reset with [:0] over the same array: every queued MsgSubmitDEs keeps the pairs it was built from (seed C05-12: batches of 50 shared one backing array, so some pairs were registered twice and others never)",
 			"R9 the (event type, attribute key) pairs the cylinder DE and signing workers read (request_signature.signing_id, pub_d / pub_e of consumed and deleted DEs) are emitted by x/tss: the daemon replaces exactly the nonces the chain consumed",
 			"R10 ExportGenesis exports exactly the queued nonces (GetDEsGenesis: Head..Tail of every queue) and reads no signing state: a nonce pair that was already assigned to an attempt is never put back into a queue by export/import (seed C05-7)",
 			"lint: the determinism lint (incl. writes to memory held by long-lived objects) over everything reachable from the handlers and blockers of x/tss",
